@@ -1,7 +1,10 @@
 //! vh — verification harness: runs the real crustabri code on case files, one canonical line per
 //! observable event. Usage: `vh <casefile>` (or stdin). Case lines: `<family> <id> k=v k=v ...`.
 mod enc;
+mod equiv;
 mod fw;
+mod io;
+mod multi;
 mod rec;
 mod solve;
 mod store;
@@ -35,6 +38,10 @@ fn main() {
             "solve" => solve::run(id, &p, &mut out),
             "store" => store::run(id, &p, &mut out),
             "enc" => enc::run(id, &p, &mut out),
+            "multi" => multi::run(id, &p, &mut out),
+            "equiv" => equiv::run(id, &p, &mut out),
+            "read" => io::run_read(id, &p, &mut out),
+            "write" => io::run_write(id, &p, &mut out),
             _ => {
                 out.push(format!("panic unknown family {}", family));
                 out.push("end".to_string());
